@@ -124,6 +124,8 @@ def render_html(res):
     for dst, sp, tag in res.inlines:
         if tag == 'css':
             head.append('<link rel="stylesheet" href="%s">' % sp)
+        elif tag in ('css:StyleSheet', 'css:STYLESHEET', 'css:alternate StyleSheet'):
+            head.append('<link rel="%s" href="%s">' % (tag[4:], sp))       # link types are ASCII case-insensitive (HTML 4.6.7)
         elif tag == 'script':
             head.append('<script src="%s"></script>' % sp)
         elif tag == 'iframe':
@@ -307,7 +309,7 @@ def gen_site(tape, nhosts=1, npages=6, with_requisites=True, with_redirects=True
             p.links.append((p, spell(tape, p, p)))
         for a in assets:
             if tape.chance(1, 3, 'site.inline'):
-                p.inlines.append((a, spell(tape, p, a), 'css' if a.kind == 'css' else tape.choice(('img', 'img', 'embed', 'input'), 'site.inline.tag')))
+                p.inlines.append((a, spell(tape, p, a), tape.choice(('css', 'css', 'css', 'css:StyleSheet', 'css:STYLESHEET', 'css:alternate StyleSheet'), 'site.css.rel') if a.kind == 'css' else tape.choice(('img', 'img', 'embed', 'input'), 'site.inline.tag')))
         if tape.chance(1, 8, 'site.iframe'):
             # a document shown in a frame: an embedded object that is an HTML page with links of its own. It is reachable
             # through the frame only (a page that is linked as well as framed would be at the mercy of which discovery
